@@ -675,14 +675,12 @@ func formatTimezone(t time.Time, marker *variableMarker, prefixed bool) (string,
 
 func formatTimezoneShort(h int, m int, layout string) (string, error) {
 
-	tz, err := formatInteger(h, layout)
+	tz, err := formatInteger(abs(h), layout)
 	if err != nil {
 		return "", err
 	}
 
-	if h >= 0 {
-		tz = "+" + tz
-	}
+	tz = timezoneSign(h, m) + tz
 
 	if m != 0 {
 		tz += fmt.Sprintf(":%02d", abs(m))
@@ -691,23 +689,29 @@ func formatTimezoneShort(h int, m int, layout string) (string, error) {
 	return tz, nil
 }
 
+// timezoneSign returns the sign of a UTC offset given as hours
+// and minutes. The two have the same sign (or are zero), so an
+// offset like -00:30 is negative although its hours are not.
+func timezoneSign(h int, m int) string {
+	if h < 0 || m < 0 {
+		return "-"
+	}
+	return "+"
+}
+
 func formatTimezoneLong(h int, m int, layout string) (string, error) {
 
-	tz, err := formatInteger(h*100+m, layout)
+	tz, err := formatInteger(abs(h)*100+abs(m), layout)
 	if err != nil {
 		return "", err
 	}
 
-	if h >= 0 {
-		tz = "+" + tz
-	}
-
-	return tz, nil
+	return timezoneSign(h, m) + tz, nil
 }
 
 func formatTimezoneSplit(h int, layoutH string, m int, layoutM string, separator string) (string, error) {
 
-	hh, err := formatInteger(h, layoutH)
+	hh, err := formatInteger(abs(h), layoutH)
 	if err != nil {
 		return "", err
 	}
@@ -717,13 +721,7 @@ func formatTimezoneSplit(h int, layoutH string, m int, layoutM string, separator
 		return "", err
 	}
 
-	tz := hh + separator + mm
-
-	if h >= 0 {
-		tz = "+" + tz
-	}
-
-	return tz, nil
+	return timezoneSign(h, m) + hh + separator + mm, nil
 }
 
 var calendars = []string{"AD"}
